@@ -333,7 +333,7 @@ class Gen:
             enc = self.gen_numeric_enc(d(st.sampled_from(["int", "int", "float"])), avail, referable, pname)
             enc["dcal"] = None
             pt["enc"] = enc
-            pt["time"] = {"scale": d(st.sampled_from([None, 1.0, 0.001, 2.0, 1e-6, 0.5])),
+            pt["time"] = {"scale": d(st.sampled_from([None, 1.0, 0.001, 2.0, 1e-6, 0.5, 0.0, -1.0])),
                           "offset": d(st.sampled_from([None, None, 0.0, 10.0, -2.5]))}
             pt["unit"] = d(st.sampled_from(["s", "seconds", "ms", None] if self.p.get("time_unit_optional", True) else ["s", "ms"]))
             pt["epoch"] = d(st.sampled_from([None, "TAI", "J2000", "UNIX", "2020-01-01", "2000-01-01T12:00:00Z"]))
